@@ -156,4 +156,13 @@ theorem agree_of_agreeB {T : Table} (f : Nat) {s : MState} {h : HState} (hb : ag
     simp only [h1, h2] at this
     exact ih this
 
+/-- executable lock-step check of `LAgree` (a kernel-checkable certificate for one table and script) -/
+def lagreeB : Nat → LState → HLState → Bool
+  | 0, _, _ => true
+  | f + 1, l, g =>
+    decide (mcand l.T l.m = hcand g.T g.h) &&
+      match lstep l, hlstep g with
+      | some l', some g' => lagreeB f l' g'
+      | _, _ => true
+
 end YashModel.Alias
